@@ -217,6 +217,13 @@ func (se *session) do(toks []string, lineNo int) (res string) {
 		if r := recover(); r != nil {
 			se.panics = append(se.panics, fmt.Sprintf("line %d %s: %v", lineNo, strings.Join(toks, " "), r))
 			res = tag + " PANIC"
+			// the call is over (by a panic): the key buffers it was given are checked now, like after a normal
+			// return — left pending they would be refilled by the next commands and reported as "changed"
+			if bufOn {
+				if msg := bufVerify(); msg != "" {
+					se.side = append(se.side, sideViolation{lineNo, "C13", msg + " in " + strings.Join(toks, " ") + " (which panicked)"})
+				}
+			}
 		}
 	}()
 	switch tag {
